@@ -362,6 +362,13 @@ ApplyResign(c, x, f) ==
     IN  [x EXCEPT !.commit = [cm EXCEPT !.sigs = [k \in 1..n |->
             SignedBy(IF f = "members" THEN x.valset[k].id ELSE 7, x.valset[k].addr, x.raw.chainId, cm, <<"t2">>)]]]
 
+\* --- a fork: the honest validators themselves sign another block at this height, differing in one field.
+\* With f = lastBlockId the fork does not link to its predecessor (adjacent verification must refuse it,
+\* non-adjacent verification rightly accepts: it IS signed by the trusted validators).
+ForkMuts == {M("fork", f, 0, 0, {}) : f \in {"lastBlockId", "appHash"}}
+
+ApplyFork(c, x, f) == ApplyResign(c, ApplyRaw(x, f, "mut"), "members")
+
 \* --- a fully self-consistent forgery: own validator set, validators hash recomputed, commit re-pointed
 \* at the new header hash and signed by the adversary's keys (and by colluding member 1 where listed).
 \* Validate accepts these BY DESIGN (they are internally consistent); Verify is what must stop them.
@@ -369,7 +376,8 @@ ForgeSets ==
     [f1 |-> [vs |-> << V(8, 5), V(9, 5) >>, signers |-> {8, 9}],                  \* all foreign
      f2 |-> [vs |-> << V(1, 5), V(8, 5), V(9, 5) >>, signers |-> {8, 9}],         \* member listed, not signing: 10/15 = 2/3 exactly
      f3 |-> [vs |-> << V(8, 6), V(9, 5), V(1, 1) >>, signers |-> {8, 9}],         \* 11/12, no trusted power
-     f4 |-> [vs |-> << V(8, 6), V(9, 5), V(1, 1) >>, signers |-> {1, 8, 9}]]      \* member 1 colludes
+     f4 |-> [vs |-> << V(8, 6), V(9, 5), V(1, 1) >>, signers |-> {1, 8, 9}],      \* member 1 colludes (5 of A's 10: > 1/3)
+     f5 |-> [vs |-> << V(8, 6), V(9, 5), V(2, 1) >>, signers |-> {2, 8, 9}]]      \* member 2 colludes (3 of A's 10: NOT > 1/3)
 ForgeMuts == {M("forge", f, 0, 0, {}) : f \in DOMAIN ForgeSets}
 
 ApplyForge(c, x, f) ==
@@ -482,12 +490,13 @@ ApplySub(c, x, p, j) ==
       [] p = "lastBlockId" -> [x EXCEPT !.raw.lastBlockId = nb.raw.lastBlockId]
 
 Mutations(c, i, x) ==
-    RawMuts \cup FixMuts \cup ResignMuts \cup ForgeMuts \cup DahMuts(x) \cup VsMuts(x) \cup CommitMuts(c, x) \cup SubMuts(c, i)
+    RawMuts \cup FixMuts \cup ResignMuts \cup ForkMuts \cup ForgeMuts \cup DahMuts(x) \cup VsMuts(x) \cup CommitMuts(c, x) \cup SubMuts(c, i)
 
 Apply(c, i, x, m) ==
     CASE m.k = "raw" -> ApplyRaw(x, m.f, m.v)
       [] m.k = "fix" -> ApplyFix(c, x, m.f)
       [] m.k = "resign" -> ApplyResign(c, x, m.f)
+      [] m.k = "fork" -> ApplyFork(c, x, m.f)
       [] m.k = "forge" -> ApplyForge(c, x, m.f)
       [] m.k = "dah" -> ApplyDah(x, m.f, m.a, m.b)
       [] m.k = "vs" -> ApplyVs(x, m.f, m.a, m.b)
